@@ -43,6 +43,12 @@ RULE = ("every plane (ordered) tree with <= max_nodes nodes (all out-degrees >= 
         "constant, is-leaf, is-internal, depth parity, each single node kept / dropped, taxon label in each subset of a "
         "3-label set otherwise); age order additionally x ultrametric height patterns (all monotone assignments over "
         "{0,1,2} for few internal nodes, five patterns with / without ties otherwise); apply x all 8 callback subsets. "
+        "In addition a stated finite set of LARGE representatives (stars of width 16..130, left- and right-leaning "
+        "ladders with 17..65 tips, balanced binary trees with 16/32/64 leaves, a broom, a unifurcation chain of 40; "
+        "listed in bounds) - chosen to straddle block sizes 16/32/64/128 that a queue or stack implementation might use - "
+        "x starts {Tree, seed, every child of the seed, a deepest internal node} x every iterator kind and flag "
+        "combination, len, apply x filters {T, F, is-leaf, depth parity}, same oracle; that layer is exhaustive over the "
+        "stated set only, it is not a size bound. "
         "A case key = one (tree [, height pattern], start, iterator kind); its evaluations = every flag combination x "
         "every filter of the family (one library call each, counted in iterator_calls); "
         "non-trivial = the tree has at least 3 nodes")
@@ -62,18 +68,32 @@ MANIFEST = {
     "text": "For every ordered tree with at most 9 (quick) / 10 (thorough) nodes, from every start node and on the tree "
             "itself, every node iterator, edge iterator, list accessor, len() and the apply() callback walk was run with "
             "every flag combination and a complete family of filters and compared with an order oracle computed from the "
-            "nested-tuple tree: no iterator skips, repeats or misorders a node or edge on any of these trees.",
+            "nested-tuple tree: no iterator skips, repeats or misorders a node or edge on any of these trees.  The same "
+            "oracle was run on a stated set of 25 large representatives (stars to width 130, ladders to 65 tips, balanced "
+            "trees to 64 leaves, a broom, a chain of 40) to expose size-triggered faults (block trims, batch sizes).",
     "note": "trusted: the harness's own recursive walks over the nested tuple; Node._child_nodes as ground truth of structure",
     "technique": "exhaustive enumeration of plane trees x starts x iterators x filters against a reference traversal",
 }
 
 
+LARGE = {"star_widths": [16, 31, 32, 33, 34, 40, 64, 65, 100, 130],
+         "ladder_tips_left_and_right_leaning": [17, 20, 33, 40, 65],
+         "balanced_binary_leaves": [16, 32, 64],
+         "broom_ladder_tips_then_star_width": [[20, 40]],
+         "unifurcation_chain_lengths": [40],
+         "starts": "the Tree, the seed node, every child of the seed, the first deepest internal node",
+         "filters": ["T", "F", "is-leaf", "depth even", "depth odd"]}
+
+
 def bounds(tier):
     if tier == "quick":
-        return {"max_nodes": 9, "all_subset_filters_up_to_nodes": 5, "all_height_patterns_up_to_internal": 3,
-                "all_height_patterns_up_to_nodes": 7, "height_alphabet": [0, 1, 2]}
-    return {"max_nodes": 10, "all_subset_filters_up_to_nodes": 7, "all_height_patterns_up_to_internal": 4,
-            "all_height_patterns_up_to_nodes": 9, "height_alphabet": [0, 1, 2]}
+        b = {"max_nodes": 9, "all_subset_filters_up_to_nodes": 5, "all_height_patterns_up_to_internal": 3,
+             "all_height_patterns_up_to_nodes": 7, "height_alphabet": [0, 1, 2]}
+    else:
+        b = {"max_nodes": 10, "all_subset_filters_up_to_nodes": 7, "all_height_patterns_up_to_internal": 4,
+             "all_height_patterns_up_to_nodes": 9, "height_alphabet": [0, 1, 2]}
+    b["large_representatives (exhaustive over this stated set, both tiers)"] = LARGE
+    return b
 
 
 # ---------------------------------------------------------------------------
@@ -107,10 +127,80 @@ def tup(x):
     return tuple(tup(y) for y in x)
 
 
+def show(env):
+    return big_name(env.desc) if env.desc else pt_str(env.pt)
+
+
+def tree_fields(env):
+    """how a case dict names its tree: the nested list (small universe) or the descriptor (large representative)"""
+    if env.desc:
+        return {"tree": None, "big": list(env.desc), "newick": big_name(env.desc)}
+    return {"tree": env.pt, "newick": pt_str(env.pt)}
+
+
+def clip(text, env):
+    return text if not env.desc or len(text) <= 900 else text[:900] + " ...[clipped]"
+
+
 def pt_str(pt):
     if not pt:
         return "*"
     return "(" + ",".join(pt_str(c) for c in pt) + ")"
+
+
+# ---------------------------------------------------------------------------
+# large representatives: descriptor -> plane tree
+
+def _ladder(k, lean):
+    """caterpillar with k tips; lean 'L': the internal spine runs through first children"""
+    t = ((), ())
+    for _ in range(k - 2):
+        t = (t, ()) if lean == "L" else ((), t)
+    return t
+
+
+def _balanced(leaves):
+    if leaves == 1:
+        return ()
+    return (_balanced(leaves // 2), _balanced(leaves - leaves // 2))
+
+
+def big_tree(desc):
+    k = desc[0]
+    if k == "star":
+        return tuple(() for _ in range(desc[1]))
+    if k == "ladder":
+        return _ladder(desc[1], desc[2])
+    if k == "balanced":
+        return _balanced(desc[1])
+    if k == "broom":        # right-leaning ladder whose last tip is replaced by a star
+        t = tuple(() for _ in range(desc[2]))
+        for _ in range(desc[1] - 1):
+            t = ((), t)
+        return t
+    if k == "chain":        # desc[1] nodes, each the only child of the one before
+        t = ()
+        for _ in range(desc[1] - 1):
+            t = (t,)
+        return t
+    raise ValueError(desc)
+
+
+def big_name(desc):
+    return "<%s>" % " ".join(str(x) for x in desc)
+
+
+def big_descriptors():
+    out = [["star", k] for k in LARGE["star_widths"]]
+    for k in LARGE["ladder_tips_left_and_right_leaning"]:
+        out += [["ladder", k, "L"], ["ladder", k, "R"]]
+    out += [["balanced", k] for k in LARGE["balanced_binary_leaves"]]
+    out += [["broom", a, b] for a, b in LARGE["broom_ladder_tips_then_star_width"]]
+    out += [["chain", k] for k in LARGE["unifurcation_chain_lengths"]]
+    return out
+
+
+BIG_FILTERS = [["T"], ["F"], ["leaf"], ["depth", 0], ["depth", 1]]
 
 
 # ---------------------------------------------------------------------------
@@ -120,8 +210,9 @@ class Env(object):
     """One plane tree: reference arrays indexed by pre-order number, and the live
     dendropy tree built from it through the node API."""
 
-    def __init__(self, pt, heights=None, set_ages=False):
+    def __init__(self, pt, heights=None, set_ages=False, desc=None):
         self.pt = pt
+        self.desc = desc        # descriptor of a 'large representative' (None in the small universe)
         ch, par, dep = [], [], []
 
         def rec(t, p, d):
@@ -488,8 +579,7 @@ def signature(target, start, meth, kwargs, tag):
 
 
 def make_case(env, target, start, meth, kwargs, fdesc, heights=None, ages_set=False, **extra):
-    c = {"tree": env.pt, "newick": pt_str(env.pt), "target": target, "start": start, "meth": meth,
-         "kwargs": dict(kwargs), "filter": fdesc}
+    c = dict(tree_fields(env), target=target, start=start, meth=meth, kwargs=dict(kwargs), filter=fdesc)
     if heights is not None:
         c["heights"] = list(heights)
         c["ages_set"] = ages_set
@@ -514,9 +604,9 @@ def check(env, ctx, target, start, meth, kwargs, fdesc, meta=None):
 
     def report(tag, text):
         ctx.violation(signature(target, start, meth, kwargs, tag),
-                      "%s.%s(%s) from %s on %s, filter %s: %s" % (
+                      clip("%s.%s(%s) from %s on %s, filter %s: %s" % (
                           target, meth, ", ".join("%s=%r" % kv for kv in sorted(kwargs.items())),
-                          "the tree" if start is None else "node #%d" % start, pt_str(env.pt), fdesc, text),
+                          "the tree" if start is None else "node #%d" % start, show(env), fdesc, text), env),
                       make_case(env, target, start, meth, kwargs, fdesc, **meta))
 
     ctx.count("iterator_calls")
@@ -572,8 +662,7 @@ def check_apply(env, ctx, target, start, cbs, positional=False):
         kw["leaf_fn"] = mk("leaf")
     if cbs[2]:
         kw["after_fn"] = mk("after")
-    case = {"tree": env.pt, "newick": pt_str(env.pt), "target": target, "start": start, "meth": "apply",
-            "cbs": list(cbs), "positional": positional}
+    case = dict(tree_fields(env), target=target, start=start, meth="apply", cbs=list(cbs), positional=positional)
     ctx.count("apply_traces")
     try:
         if positional:
@@ -592,14 +681,14 @@ def check_apply(env, ctx, target, start, cbs, positional=False):
         else:
             tag = "trace-not-the-bracket-sequence"
         ctx.violation(signature(target, start, "apply", {}, tag),
-                      "%s.apply from %s on %s with callbacks %s: trace %s, bracket sequence %s" % (
-                          target, "the tree" if start is None else "node #%d" % start, pt_str(env.pt), sorted(present), trace, want),
+                      clip("%s.apply from %s on %s with callbacks %s: trace %s, bracket sequence %s" % (
+                          target, "the tree" if start is None else "node #%d" % start, show(env), sorted(present), trace, want), env),
                       case)
 
 
 def check_len(env, ctx):
     ctx.count("len_calls")
-    case = {"tree": env.pt, "newick": pt_str(env.pt), "target": "Tree", "start": None, "meth": "__len__"}
+    case = dict(tree_fields(env), target="Tree", start=None, meth="__len__")
     try:
         got = len(env.tree)
     except Exception as e:
@@ -607,14 +696,14 @@ def check_len(env, ctx):
         return
     want = len(env.leaves(0))
     if got != want:
-        ctx.violation("Tree.__len__|not-the-number-of-leaves", "len(tree)=%r on %s with %d leaves" % (got, pt_str(env.pt), want), case)
+        ctx.violation("Tree.__len__|not-the-number-of-leaves", "len(tree)=%r on %s with %d leaves" % (got, show(env), want), case)
 
 
 def check_unchanged(env, ctx, what):
     if not env.unchanged():
         ctx.violation("traversal-mutated-the-tree|%s" % what, "after the %s traversals %s reads %s" % (
-            what, pt_str(env.pt), ref.to_newick(ref.snapshot(env.tree)[1])),
-            {"tree": env.pt, "meth": "__unchanged__", "layer": what})
+            what, show(env), ref.to_newick(ref.snapshot(env.tree)[1])[:600]),
+            dict(tree_fields(env), meth="__unchanged__", layer=what))
 
 
 # ---------------------------------------------------------------------------
@@ -699,6 +788,70 @@ def run_tree_age(pt, ctx, b):
     ctx.count("age_trees")
 
 
+def big_starts(env):
+    internals = [i for i in range(env.n) if not env.leaf[i]]
+    starts = [0] + list(env.ch[0])
+    if internals:
+        deepest = max(internals, key=lambda i: (env.dep[i], -i))
+        if deepest not in starts:
+            starts.append(deepest)
+    return starts
+
+
+def run_big(desc, ctx):
+    """one large representative: every iterator kind / flag combination, len, apply from the stated starts, filters BIG_FILTERS"""
+    desc = list(desc)
+    pt = big_tree(desc)
+    kid = ("big",) + tuple(desc)
+    env = Env(pt, desc=desc)
+    h = default_heights(env)
+    env_age_tree = Env(pt, h, set_ages=False, desc=desc)
+    env_age_node = Env(pt, h, set_ages=True, desc=desc)
+    node_starts = big_starts(env)
+    fam = []
+    seen = set()
+    for d in BIG_FILTERS:
+        S = filter_set(env, d)
+        if S not in seen:
+            seen.add(S)
+            fam.append(d)
+    for target, starts in (("Tree", [None]), ("Node", node_starts)):
+        for start in starts:
+            s = 0 if start is None else start
+            for (tg, meth), spec in SPECS.items():
+                if tg != target or not domain_ok(env, spec, s):
+                    continue
+                if spec.get("layer") == "age":
+                    e = env_age_tree if target == "Tree" else env_age_node
+                    meta = {"heights": h, "ages_set": target == "Node"}
+                else:
+                    e, meta = env, None
+                ncalls = 0
+                for kwargs in spec.get("kws", [{}]):
+                    fl = [None] + ((ALIAS_FILTERS if spec.get("dep") else fam) if spec["filt"] else [])
+                    for fd in fl:
+                        check(e, ctx, target, start, meth, kwargs, fd, meta)
+                    ncalls += len(fl)
+                ctx.case((kid, target, start, meth), n=ncalls)
+                ctx.count("large_iterator_calls", ncalls)
+            for cbs in CB_SUBSETS:
+                check_apply(env, ctx, target, start, cbs)
+            check_apply(env, ctx, target, start, (True, True, True), positional=True)
+            ctx.case((kid, target, start, "apply"), n=len(CB_SUBSETS) + 1)
+            ctx.count("large_starts")
+    check_len(env, ctx)
+    ctx.case((kid, "Tree", None, "__len__"))
+    check_unchanged(env, ctx, "iter")
+    check_unchanged(env_age_tree, ctx, "age")
+    check_unchanged(env_age_node, ctx, "age")
+    ctx.count("large_trees")
+    ctx.maximum("large_max_nodes", env.n)
+    ctx.maximum("large_max_out_degree", max(len(c) for c in env.ch))
+    ctx.maximum("large_max_depth", max(env.dep))
+    ctx.sample({"large_representative": big_name(desc), "nodes": env.n, "leaves": len(env.leaf_ids),
+                "node_starts": len(node_starts), "depth": max(env.dep)}, 1)
+
+
 def chunk_step(n, layer):
     if n <= 5:
         return 1000
@@ -707,7 +860,7 @@ def chunk_step(n, layer):
 
 def chunks(tier):
     b = bounds(tier)
-    out = []
+    out = [{"layer": "big", "desc": d, "tier": tier} for d in big_descriptors()]
     for n in range(b["max_nodes"], 0, -1):      # big chunks first
         total = CATALAN[n - 1]
         for layer in ("iter", "age"):
@@ -718,6 +871,9 @@ def chunks(tier):
 
 
 def run_chunk(chunk, ctx):
+    if chunk["layer"] == "big":
+        run_big(chunk["desc"], ctx)
+        return None
     b = bounds(chunk["tier"])
     trees = plane_trees(chunk["n"])
     for k in range(chunk["lo"], chunk["hi"]):
@@ -747,18 +903,28 @@ def post(tier, auxes, ctx):
     if ctx.counters.get("trees") != want or ctx.counters.get("age_trees") != want:
         raise RuntimeError("harness: enumerated %r / %r trees, the universe has %d" % (
             ctx.counters.get("trees"), ctx.counters.get("age_trees"), want))
+    if ctx.counters.get("large_trees") != len(big_descriptors()):
+        raise RuntimeError("harness: %r large representatives run, %d are listed" % (
+            ctx.counters.get("large_trees"), len(big_descriptors())))
 
 
 # ---------------------------------------------------------------------------
 
 def replay(case, ctx):
-    pt = tup(case["tree"])
     meth = case["meth"]
-    if meth == "__unchanged__":
-        b = bounds("quick")
-        (run_tree_iter if case.get("layer") == "iter" else run_tree_age)(pt, ctx, b)
-        return
-    env = Env(pt, case.get("heights"), set_ages=bool(case.get("ages_set")))
+    desc = case.get("big")
+    if desc:
+        if meth == "__unchanged__":
+            run_big(desc, ctx)
+            return
+        pt = big_tree(desc)
+    else:
+        pt = tup(case["tree"])
+        if meth == "__unchanged__":
+            b = bounds("quick")
+            (run_tree_iter if case.get("layer") == "iter" else run_tree_age)(pt, ctx, b)
+            return
+    env = Env(pt, case.get("heights"), set_ages=bool(case.get("ages_set")), desc=desc)
     target, start = case["target"], case["start"]
     if meth == "apply":
         check_apply(env, ctx, target, start, tuple(case["cbs"]), positional=bool(case.get("positional")))
